@@ -28,6 +28,9 @@ EXPLANATION = (
 
 
 def run(ctx: Ctx) -> None:
+    from .c09 import rule_lc_check_inversion, rule_sign_repair
+    rule_lc_check_inversion(ctx)   # solve() appends lc_check's gates to the circuit of the LC graph
+    rule_sign_repair(ctx)
     from ..rules import shapes as _shapes
     _shapes.rule_relabel_map_self(ctx)
     _shapes.rule_relabel_map_direction(ctx)
